@@ -68,6 +68,9 @@ pub enum C13 {
     /// raw `write_all` history on a boxed cursor whose buffer the caller exchanges for a larger one (same content) through
     /// `Cursor::get_mut()` after write number `at`: the position stays, the room grows
     Regrow { cap: u32, new_cap: u32, at: u32, writes: Vec<u32> },
+    /// an ENDLESS value (an indefinite-length array over an iterator that never ends) into each bounded sink of `cap`
+    /// bytes: the sink bounds the work -- the call must come back with a write error and a prefix of `9f 07 07 07 ...`
+    Endless { cap: u32 },
     /// a long stream through ONE io adapter: `count` byte strings of `chunk` bytes into a device that accepts everything
     /// (at most `piece` bytes per call, 0 = no bound) and only counts -- cumulative counters beyond 2^32 bytes
     Stream { chunk: u32, count: u32, piece: u32 },
@@ -135,11 +138,14 @@ fn encode_each<S: Write + ?Sized>(values: &[ValSpec], sink: &mut S) -> Vec<Resul
 /// write that does not fit and the next value starts where the sink then stands.
 struct Continued {
     ok: Vec<bool>,
+    /// the value fails by itself (its `Encode` impl returns a non-write error) after all its writes were accepted
+    own_error: Vec<bool>,
     bytes: Vec<u8>,
 }
 
-fn continued_model(reference: &[u8], cuts: &[usize], per_value: &[usize], cap: usize) -> Continued {
+fn continued_model(reference: &[u8], cuts: &[usize], per_value: &[usize], self_fail: &[bool], cap: usize) -> Continued {
     let mut ok = Vec::new();
+    let mut own_error = Vec::new();
     let mut bytes = Vec::new();
     let mut w = 0usize; // index into cuts
     let mut start = 0usize;
@@ -157,9 +163,11 @@ fn continued_model(reference: &[u8], cuts: &[usize], per_value: &[usize], cap: u
             start = end;
         }
         w += nw;
-        ok.push(good);
+        let fails_itself = self_fail.get(ok.len()).copied().unwrap_or(false);
+        own_error.push(good && fails_itself);
+        ok.push(good && !fails_itself);
     }
-    Continued { ok, bytes }
+    Continued { ok, own_error, bytes }
 }
 
 fn judge_continued(k: &str, c: usize, results: &[Result<(), ErrInfo>], pos: usize, content: &[u8], m: &Continued) -> Result<(), Violation> {
@@ -167,6 +175,7 @@ fn judge_continued(k: &str, c: usize, results: &[Result<(), ErrInfo>], pos: usiz
         match r {
             Ok(()) if !m.ok[j] => fail!("fit_iff", "{k} cap={c}: value #{j} of a sequence on one Encoder reported success although its encoding does not fit the room left"),
             Err(e) if m.ok[j] => fail!("fit_iff", "{k} cap={c}: value #{j} of a sequence on one Encoder fits the room left (earlier values were refused) but returned an error ({})", e.msg),
+            Err(_) if m.own_error[j] => {}
             Err(e) if !e.is_write => fail!("err_is_write", "{k} cap={c}: value #{j} of a sequence on one Encoder does not fit, but the failure is not reported as a write error ({})", e.msg),
             _ => {}
         }
@@ -334,6 +343,14 @@ struct Outcome<'a> {
     content: &'a [u8],
 }
 
+/// The single-pass verdicts do not apply to a sequence in which a value fails by itself (only the continued pass does).
+fn judge_unless(skip: bool, o: &Outcome, reference: &[u8]) -> Result<(), Violation> {
+    if skip {
+        return Ok(());
+    }
+    judge(o, reference)
+}
+
 fn judge(o: &Outcome, reference: &[u8]) -> Result<(), Violation> {
     let n = reference.len();
     let k = o.sink.name();
@@ -481,13 +498,18 @@ fn run_encode(values: &[ValSpec], only_sink: Option<Sink>, only_cap: Option<u32>
     // reference: the unbounded sink, plus the internal write boundaries
     let mut rec = Rec { bytes: Vec::new(), cuts: Vec::new() };
     let mut per_value: Vec<usize> = Vec::new(); // number of internal writes of each value
+    // a value may fail by itself after some output (its Encode impl returns an error of its own): what it wrote before stays
+    // accepted, and the position must say so
+    let mut self_fail: Vec<bool> = Vec::new();
     for v in values {
         let before = rec.cuts.len();
-        if encode_all(std::slice::from_ref(v), &mut rec).is_err() {
-            // the encoder itself refuses one of the values: not a statement about sinks
-            return Ok(());
-        }
+        self_fail.push(encode_all(std::slice::from_ref(v), &mut rec).is_err());
         per_value.push(rec.cuts.len() - before);
+    }
+    let any_self_fail = self_fail.iter().any(|f| *f);
+    if any_self_fail && values.len() < 2 {
+        // a lone value that the encoder itself refuses: not a statement about sinks
+        return Ok(());
     }
     let reference = rec.bytes;
     let cuts = rec.cuts;
@@ -507,7 +529,7 @@ fn run_encode(values: &[ValSpec], only_sink: Option<Sink>, only_cap: Option<u32>
     };
     // the convenience entry point for the growable sink, called right after a to_vec that failed part-way on this thread
     // (state that survives a failed call must not leak into the next result)
-    {
+    if !any_self_fail {
         let _ = minicbor::to_vec(FailEncode { partial: 3 });
         let mut tv = Vec::new();
         for v in values {
@@ -523,7 +545,7 @@ fn run_encode(values: &[ValSpec], only_sink: Option<Sink>, only_cap: Option<u32>
     }
     let mut vec_ref = Vec::new();
     let _ = encode_all(values, &mut vec_ref);
-    if vec_ref != reference {
+    if !any_self_fail && vec_ref != reference {
         fail!("bytes_equal", "Vec<u8> sink and the recording sink disagree on the encoding ({} vs {} bytes)", vec_ref.len(), n);
     }
 
@@ -550,7 +572,7 @@ fn run_encode(values: &[ValSpec], only_sink: Option<Sink>, only_cap: Option<u32>
         }
     };
 
-    if keep_going && only_sink.map(|k| k == Sink::IoWriter).unwrap_or(true) {
+    if keep_going && !any_self_fail && only_sink.map(|k| k == Sink::IoWriter).unwrap_or(true) {
         io_continued(values, &encodings, io_seed, obs)?;
     }
     for &c in &caps {
@@ -595,7 +617,7 @@ fn run_encode(values: &[ValSpec], only_sink: Option<Sink>, only_cap: Option<u32>
                         (r, c - sl.len(), t)
                     };
                     canaries_ok(&backing, c, sink.name())?;
-                    judge(&Outcome { sink, cap: c, result, accepted, tapped: Some(tapped), device_error: false, content: &backing[GUARD..GUARD + c] }, &reference)?;
+                    judge_unless(any_self_fail, &Outcome { sink, cap: c, result, accepted, tapped: Some(tapped), device_error: false, content: &backing[GUARD..GUARD + c] }, &reference)?;
                     if keep_going {
                         let mut backing = guarded(c);
                         let (results, pos) = {
@@ -604,7 +626,7 @@ fn run_encode(values: &[ValSpec], only_sink: Option<Sink>, only_cap: Option<u32>
                             (r, c - sl.len())
                         };
                         canaries_ok(&backing, c, sink.name())?;
-                        judge_continued(sink.name(), c, &results, pos, &backing[GUARD..GUARD + c], &continued_model(&reference, &cuts, &per_value, c))?;
+                        judge_continued(sink.name(), c, &results, pos, &backing[GUARD..GUARD + c], &continued_model(&reference, &cuts, &per_value, &self_fail, c))?;
                     }
                 }
                 Sink::SliceCursor => {
@@ -619,7 +641,7 @@ fn run_encode(values: &[ValSpec], only_sink: Option<Sink>, only_cap: Option<u32>
                         (r, cur.position(), t)
                     };
                     canaries_ok(&backing, c, sink.name())?;
-                    judge(&Outcome { sink, cap: c, result, accepted, tapped: Some(tapped), device_error: false, content: &backing[GUARD..GUARD + c] }, &reference)?;
+                    judge_unless(any_self_fail, &Outcome { sink, cap: c, result, accepted, tapped: Some(tapped), device_error: false, content: &backing[GUARD..GUARD + c] }, &reference)?;
                     if keep_going {
                         let mut backing = guarded(c);
                         let (results, pos) = {
@@ -628,7 +650,7 @@ fn run_encode(values: &[ValSpec], only_sink: Option<Sink>, only_cap: Option<u32>
                             (r, cur.position())
                         };
                         canaries_ok(&backing, c, sink.name())?;
-                        judge_continued(sink.name(), c, &results, pos, &backing[GUARD..GUARD + c], &continued_model(&reference, &cuts, &per_value, c))?;
+                        judge_continued(sink.name(), c, &results, pos, &backing[GUARD..GUARD + c], &continued_model(&reference, &cuts, &per_value, &self_fail, c))?;
                     }
                 }
                 Sink::ArrayCursor => {
@@ -641,7 +663,7 @@ fn run_encode(values: &[ValSpec], only_sink: Option<Sink>, only_cap: Option<u32>
                         (r, w.pos(), t, w.bytes().to_vec())
                     };
                     if let Some((result, accepted, tapped, bytes)) = array_sink(c, &mut f) {
-                        judge(&Outcome { sink, cap: c, result, accepted, tapped: Some(tapped), device_error: false, content: &bytes }, &reference)?;
+                        judge_unless(any_self_fail, &Outcome { sink, cap: c, result, accepted, tapped: Some(tapped), device_error: false, content: &bytes }, &reference)?;
                     }
                     if keep_going {
                         let mut g = |w: &mut dyn ArrCur| {
@@ -649,7 +671,7 @@ fn run_encode(values: &[ValSpec], only_sink: Option<Sink>, only_cap: Option<u32>
                             (r, w.pos(), w.bytes().to_vec())
                         };
                         if let Some((results, pos, bytes)) = array_sink(c, &mut g) {
-                            judge_continued(sink.name(), c, &results, pos, &bytes, &continued_model(&reference, &cuts, &per_value, c))?;
+                            judge_continued(sink.name(), c, &results, pos, &bytes, &continued_model(&reference, &cuts, &per_value, &self_fail, c))?;
                         }
                     }
                     // and the monomorphic path (no dyn, no tap) for two fixed sizes
@@ -657,13 +679,13 @@ fn run_encode(values: &[ValSpec], only_sink: Option<Sink>, only_cap: Option<u32>
                         let mut cur = Cursor::new([PATTERN; 16]);
                         let result = encode_all(values, &mut cur);
                         let accepted = cur.position();
-                        judge(&Outcome { sink, cap: c, result, accepted, tapped: None, device_error: false, content: &cur.get_ref()[..] }, &reference)?;
+                        judge_unless(any_self_fail, &Outcome { sink, cap: c, result, accepted, tapped: None, device_error: false, content: &cur.get_ref()[..] }, &reference)?;
                     }
                     if c == 64 {
                         let mut cur = Cursor::new([PATTERN; 64]);
                         let result = encode_all(values, &mut cur);
                         let accepted = cur.position();
-                        judge(&Outcome { sink, cap: c, result, accepted, tapped: None, device_error: false, content: &cur.get_ref()[..] }, &reference)?;
+                        judge_unless(any_self_fail, &Outcome { sink, cap: c, result, accepted, tapped: None, device_error: false, content: &cur.get_ref()[..] }, &reference)?;
                     }
                 }
                 Sink::BoxCursor => {
@@ -678,16 +700,19 @@ fn run_encode(values: &[ValSpec], only_sink: Option<Sink>, only_cap: Option<u32>
                     if inner.len() != c {
                         fail!("no_overrun", "box_cursor cap={c}: the boxed slice changed length to {}", inner.len());
                     }
-                    judge(&Outcome { sink, cap: c, result, accepted, tapped: Some(tapped), device_error: false, content: &inner }, &reference)?;
+                    judge_unless(any_self_fail, &Outcome { sink, cap: c, result, accepted, tapped: Some(tapped), device_error: false, content: &inner }, &reference)?;
                     if keep_going {
                         let mut cur = Cursor::new(vec![PATTERN; c].into_boxed_slice());
                         let results = encode_each(values, &mut cur);
                         let pos = cur.position();
                         let inner = cur.into_inner();
-                        judge_continued(sink.name(), c, &results, pos, &inner, &continued_model(&reference, &cuts, &per_value, c))?;
-                        packetize(values, c, &encodings)?;
+                        judge_continued(sink.name(), c, &results, pos, &inner, &continued_model(&reference, &cuts, &per_value, &self_fail, c))?;
+                        if !any_self_fail {
+                            packetize(values, c, &encodings)?;
+                        }
                     }
                 }
+                Sink::VecSink | Sink::IoWriter if any_self_fail => {}
                 Sink::VecSink => {
                     // growable: never fails; pre-existing content must be kept and the encoding appended
                     let mut v = vec![PATTERN; c.min(64)];
@@ -748,7 +773,7 @@ fn run_encode(values: &[ValSpec], only_sink: Option<Sink>, only_cap: Option<u32>
                             );
                         }
                     }
-                    judge(&Outcome { sink, cap: c, result, accepted: core.data.len(), tapped: None, device_error, content: &core.data }, &reference)?;
+                    judge_unless(any_self_fail, &Outcome { sink, cap: c, result, accepted: core.data.len(), tapped: None, device_error, content: &core.data }, &reference)?;
                 }
             }
         }
@@ -828,6 +853,50 @@ fn run_raw_moving<const N: usize>(writes: &[u32]) -> Result<(), Violation> {
         if cur.get_ref()[..model.len()] != model[..] {
             fail!("raw_write_model", "array_cursor cap={N} (cursor moved between writes): after write_all #{i} the accepted bytes were altered");
         }
+    }
+    Ok(())
+}
+
+fn run_endless(cap: usize, obs: &Rc<RefCell<Obs>>) -> Result<(), Violation> {
+    let expect: Vec<u8> = std::iter::once(0x9f).chain(std::iter::repeat(7)).take(cap).collect();
+    let check = |k: &str, r: Result<(), ErrInfo>, pos: usize, content: &[u8]| -> Result<(), Violation> {
+        match r {
+            Ok(()) => fail!("fit_iff", "{k} cap={cap}: an endless value reported success"),
+            Err(e) if !e.is_write => fail!("err_is_write", "{k} cap={cap}: endless value: the failure is not a write error ({})", e.msg),
+            Err(_) => {}
+        }
+        if pos != cap || content[..cap] != expect[..] {
+            fail!("prefix_left", "{k} cap={cap}: endless value: position {pos}, content is not the first {cap} bytes of the encoding");
+        }
+        Ok(())
+    };
+    let enc = |sink: &mut dyn FnMut(&minicbor::encode::ArrayIter<std::iter::Repeat<u8>>) -> Result<(), ErrInfo>| sink(&minicbor::encode::ArrayIter::new(std::iter::repeat(7u8)));
+    obs.borrow_mut().event(28, cap as u64);
+    {
+        let mut backing = guarded(cap);
+        let (r, pos) = {
+            let mut sl: &mut [u8] = &mut backing[GUARD..GUARD + cap];
+            let r = enc(&mut |v| minicbor::encode(v, &mut sl).map_err(|e| ErrInfo { is_write: e.is_write(), msg: e.to_string_lossy() }));
+            (r, cap - sl.len())
+        };
+        canaries_ok(&backing, cap, "slice")?;
+        check("slice", r, pos, &backing[GUARD..GUARD + cap])?;
+    }
+    {
+        let mut cur = Cursor::new(vec![PATTERN; cap].into_boxed_slice());
+        let r = enc(&mut |v| minicbor::encode(v, &mut cur).map_err(|e| ErrInfo { is_write: e.is_write(), msg: e.to_string_lossy() }));
+        let pos = cur.position();
+        check("box_cursor", r, pos, &cur.into_inner())?;
+    }
+    {
+        let core = SinkCore::new(Vec::new(), Some(cap), 4 * cap as u64 + 64, obs.clone());
+        let mut w = Writer::new(SimSink(core.clone()));
+        let r = enc(&mut |v| minicbor::encode(v, &mut w).map_err(|e| ErrInfo { is_write: e.is_write(), msg: e.to_string_lossy() }));
+        let c = core.borrow();
+        if c.cap_hit {
+            fail!("progress", "io_writer cap={cap}: endless value: the device kept being called after it was full");
+        }
+        check("io_writer", r, c.data.len(), &c.data)?;
     }
     Ok(())
 }
@@ -1051,6 +1120,7 @@ impl Scenario for C13 {
                 .set("new_cap", *new_cap)
                 .set("at", *at)
                 .set("writes", Json::Arr(writes.iter().map(|w| Json::from(*w)).collect())),
+            C13::Endless { cap } => Json::obj().set("kind", "endless").set("cap", *cap),
             C13::Stream { chunk, count, piece } => Json::obj().set("kind", "stream").set("chunk", *chunk).set("count", *count).set("piece", *piece),
             C13::Raw { sink, cap, writes } => {
                 Json::obj().set("kind", "raw").set("sink", sink.name()).set("cap", *cap).set("writes", Json::Arr(writes.iter().map(|w| Json::from(*w)).collect()))
@@ -1071,6 +1141,7 @@ impl Scenario for C13 {
                 at: j.get("at").and_then(|c| c.as_u64()).ok_or("at")? as u32,
                 writes: j.get("writes").and_then(|v| v.as_arr()).ok_or("writes")?.iter().map(|w| w.as_u64().map(|x| x as u32).ok_or("write")).collect::<Result<_, _>>()?,
             }),
+            Some("endless") => Ok(C13::Endless { cap: j.get("cap").and_then(|c| c.as_u64()).ok_or("cap")? as u32 }),
             Some("stream") => Ok(C13::Stream {
                 chunk: j.get("chunk").and_then(|c| c.as_u64()).ok_or("chunk")? as u32,
                 count: j.get("count").and_then(|c| c.as_u64()).ok_or("count")? as u32,
@@ -1091,6 +1162,7 @@ impl Scenario for C13 {
                 .map_err(|v| v.key(format!("types={}", values.iter().map(|v| v.ty.name()).collect::<Vec<_>>().join("+")))),
             C13::Raw { sink, cap, writes } => run_raw(*sink, *cap as usize, writes, &shared).map_err(|v| v.key(format!("raw sink={}", sink.name()))),
             C13::Regrow { cap, new_cap, at, writes } => run_regrow(*cap as usize, *new_cap as usize, *at as usize, writes, &shared).map_err(|v| v.key("regrow".to_string())),
+            C13::Endless { cap } => run_endless(*cap as usize, &shared).map_err(|v| v.key("endless".to_string())),
             C13::Stream { chunk, count, piece } => run_stream(*chunk as usize, *count, *piece as usize, &shared).map_err(|v| v.key("stream".to_string())),
         };
         *obs = shared.replace(Obs::new());
@@ -1153,6 +1225,11 @@ impl Scenario for C13 {
                     out.push(C13::Regrow { cap: cap - 1, new_cap: *new_cap, at: *at, writes: writes.clone() });
                 }
             }
+            C13::Endless { cap } => {
+                if *cap > 0 {
+                    out.push(C13::Endless { cap: cap - 1 });
+                }
+            }
             C13::Stream { chunk, count, piece } => {
                 if *count > 1 {
                     out.push(C13::Stream { chunk: *chunk, count: count / 2, piece: *piece });
@@ -1197,6 +1274,10 @@ impl Property for P13 {
                     out.push(C13::Encode { values: vec![ValSpec { ty, size, seed: 9000 + seed }], sink: None, cap: None, io_seed: seed });
                 }
             }
+        }
+        // an endless value: the bounded sink has to stop it
+        for cap in [0u32, 1, 2, 3, 7, 64, 1000] {
+            out.push(C13::Endless { cap });
         }
         // a boxed cursor whose buffer is exchanged for a larger one after the first / second write
         for cap in 0..=5u32 {
